@@ -28,7 +28,9 @@ CLAIMS["C06"] = {
     "technique": "effect analysis (read-set ⊆ hash-set) by path-sensitive "
                  "partial evaluation of every registered recipe's compute "
                  "function under a presence lattice; registry folded from "
-                 "source; CFG guard dominance for the cache protocol",
+                 "source; finite-model evaluation of the parsed "
+                 "AncillaryFeature / obj2bytes / RTDCBase access path "
+                 "(nothing of dclab executed)",
     "text": "For each of the 33 registered ancillary-feature recipes "
             "(registry folded from the registration code, cross-validated "
             "against the imported package in the thorough tier) the compute "
@@ -37,15 +39,19 @@ CLAIMS["C06"] = {
             "decide between result and exception must be a hash ingredient "
             "(req_features, req_config or flow into a non-boolean req_func "
             "result) unless its presence is determined while the recipe is "
-            "selected. Holds for every history of setting changes at once. "
-            "Plus: cache used only under equal hash and current "
-            "availability, availability/access source agreement, scenario "
-            "precedence, digest completeness, plugin/temporary features.",
-    "note": "Decides staleness through the hash mechanism only; does not "
-            "decide numerical equality with a fresh dataset nor formulas. "
-            "len(mm) and non-feature attributes are not tracked. Exceptions "
-            "raised by external helpers are not modelled. md5 collision "
-            "freedom assumed.",
+            "selected. The mechanism that uses the hash is evaluated from "
+            "its syntax tree on model datasets: states differing in one "
+            "ingredient get different hashes, availability equals its "
+            "definition on 288 x 5 cases, and after every model history of "
+            "reads and changes each access equals a fresh computation on "
+            "the current state while `in` agrees with access. Plus scenario "
+            "precedence, plugin/temporary features, write-once LUT "
+            "registry, availability recomputed on every call.",
+    "note": "The histories are decided on the model recipes, the read sets "
+            "on the real ones; numerical equality of real recipes with a "
+            "fresh dataset and formulas are not decided. len(mm) and "
+            "non-feature attributes are not tracked. md5 collision freedom "
+            "assumed.",
 }
 
 CLAIMS["C03"] = {
